@@ -38,6 +38,18 @@ CHECKS = {
  "C20": ("exploration", "exhaustive id-space enumeration + totality monitor (catch_unwind) with a grammar oracle over enumerated and seeded strings",
          "Every id 0..10^7 and the u32 borders are rendered, parsed back and converted through bytes in every run (exhaustive for that half); try_from(&str) is driven with all 66430 strings of <=5 symbols over a 9-symbol alphabet incl. 2/3/4-byte characters, numeric borders and seeded longer strings under a panic monitor.",
          "a leading '+' is not judged; From<String>/PartialEq<&str> are documented to panic and excluded", "DESIGN.md §5 C20"),
+ "C07": ("exploration", "metamorphic round-trip monitor (observational identity through the whole read API + compare())",
+         "Ontologies obtained through every public constructor (incl. obsolete/replaced terms, over-long and multi-byte names, empty sections, border ids) are walked, serialised, reloaded and walked again; the observations must be identical up to the documented 255-byte name trim, compare() must be empty, and a second generation must be stable.",
+         "a reloaded name > 255 bytes may be any 252..255-byte prefix; replacement id 0 is not generated (the format encodes 'none' as 0)", "DESIGN.md §5 C07"),
+ "C08": ("fault_enumeration", "independent codec calibrated on shipped v1/v2/v3 files + truncation at every byte offset, suffix and version-byte injection",
+         "Per generated file (v1, v2, v3; two parent-record styles) every proper prefix, 28 suffixes and all other version bytes are fed to from_bytes and must be rejected; the intact file must decode to the model and be insensitive to record order. The encoder is tied to the real format by reproducing the three shipped files byte for byte in every run.",
+         "rejection = Err or documented panic; 'HPO'+version byte 1 is not judged; files are sampled, offsets per file are exhaustive", "DESIGN.md §5 C08"),
+ "C09": ("exploration", "reference-model + cross-path metamorphic monitor on rendered JAX directories",
+         "Facts are rendered as hp.obo / phenotype.hpoa / gene files with shuffled stanzas and rows plus noise that must be ignored, loaded with both loaders and compared through the whole read API with the model and with the same facts through the v3 binary path and the Builder.",
+         "files are rendered in the JAX shape only; records without terms cannot be expressed in text", "DESIGN.md §5 C09"),
+ "C16": ("exploration", "permutation metamorphic monitor: 11 supply orders per FactSet and path family",
+         "For each FactSet the Builder calls, binary records per section or text stanzas/rows are supplied in 11 orders (incl. reverse-topological, ancestor-first, descendant-first); all observations must equal the model and each other.",
+         "one name per id, one replacement per term", "DESIGN.md §5 C16"),
 }
 
 NOT_YET = {}
